@@ -445,11 +445,42 @@ class _Canon(ast.NodeTransformer):
                 setattr(node, fld, self._fold_loops(b))
         return node
 
+    @staticmethod
+    def _records(mod):
+        out, seen = {}, {}
+        for st in mod.body:
+            for x in ast.walk(st) if not isinstance(st, (ast.FunctionDef, ast.AsyncFunctionDef, ast.ClassDef)) else []:
+                if isinstance(x, ast.Name) and isinstance(x.ctx, (ast.Store, ast.Del)):
+                    seen[x.id] = seen.get(x.id, 0) + 1
+            if isinstance(st, (ast.FunctionDef, ast.AsyncFunctionDef, ast.ClassDef)):
+                seen[st.name] = seen.get(st.name, 0) + 1
+            if isinstance(st, ast.ClassDef) and any(ast.unparse(b).split(".")[-1] == "NamedTuple" for b in st.bases) and not st.decorator_list:
+                if not any(isinstance(x, ast.FunctionDef) and x.name in ("__new__", "__getattr__", "__getattribute__") for x in st.body):
+                    out[st.name] = tuple(x.target.id for x in st.body if isinstance(x, ast.AnnAssign) and isinstance(x.target, ast.Name))
+            elif isinstance(st, ast.Assign) and len(st.targets) == 1 and isinstance(st.targets[0], ast.Name) and isinstance(st.value, ast.Call) \
+                    and ast.unparse(st.value.func).split(".")[-1] == "namedtuple" and len(st.value.args) == 2 and not st.value.keywords:
+                f = st.value.args[1]
+                try:
+                    fv = ast.literal_eval(f)
+                except Exception:
+                    continue
+                if isinstance(fv, str):
+                    fv = fv.replace(",", " ").split()
+                if isinstance(fv, (list, tuple)) and fv and all(isinstance(x, str) and x.isidentifier() for x in fv):
+                    out[st.targets[0].id] = tuple(fv)
+        return {k: v for k, v in out.items() if seen.get(k, 0) == 1 and v}
+
     def visit_Module(self, n):
         # module-level tables `_NAME = (<literals>)` bound once and never mutated: a loop `for a, b in _NAME` inside a function
         # of the module is as static as one over a local literal (normalize.unroll_static_loops)
         from .normalize import module_tables
         self._module_tables = module_tables(n)
+        # record types of the module (typing.NamedTuple classes, collections.namedtuple(..) bindings): name -> field names, attached to
+        # every function of the module so that value reconstruction (valueflow.Flow) can project `R(a, b).field` to the argument
+        recs = self._records(n)
+        for x in ast.walk(n):
+            if isinstance(x, (ast.FunctionDef, ast.AsyncFunctionDef)):
+                x._sa_records = recs
         # how this module spells the itertools functions (used by _itertools)
         self._it_mods, self._it_names = {"itertools"}, {}
         bound = {}
